@@ -8,6 +8,7 @@ from .util import reaches_without
 from . import p_c01
 from .p_c05 import fn_paths, PR, EPS
 
+TECHNIQUE = 'static analysis: event-language equality of the rational operations against their definitions; canonical-aggregate dataflow (every Num constructed is canonicalised before it escapes); the integer rules of C05'
 LEVEL = "other"
 EXPLANATION = (
     "The rational type is a thin, definitional layer over the big integers, so its functions are compared on all CFG "
